@@ -154,6 +154,20 @@ static void measure_writer(size_t payload, Meas &m) {
     rec(m, "binson_writer_get_counter", painted_call([&] { binson_writer_get_counter(&w); }));
     rec(m, "binson_writer_verify", painted_call([&] { binson_writer_verify(&w); }));
     rec(m, "binson_write_raw", painted_call([&] { binson_write_raw(&w, data.data(), payload); }));
+    // the caller may prepare a value inside the destination buffer itself (the writer uses memmove): the source then
+    // aliases the output at or just behind the write position. The bytes produced in that case are the caller's
+    // business; the stack needed to produce them must still not depend on the length.
+    {
+        std::vector<uint8_t> big(payload * 16 + 4096, 0x62);
+        binson_writer a; binson_writer_init(&a, big.data(), big.size());
+        binson_write_array_begin(&a);
+        static const size_t ks[] = {0, 1, 2, 3, 5, 64};
+        for (size_t k : ks) {
+            rec(m, "binson_write_bytes(source inside own buffer)", painted_call([&] { binson_write_bytes(&a, big.data() + binson_writer_get_counter(&a) + k, payload); }));
+            rec(m, "binson_write_string_with_len(source inside own buffer)", painted_call([&] { binson_write_string_with_len(&a, (const char *)big.data() + binson_writer_get_counter(&a) + k, payload); }));
+        }
+        big[big.size() - 1] = 0;
+    }
     rec(m, "binson_writer_reset", painted_call([&] { binson_writer_reset(&w); }));
 }
 
